@@ -625,6 +625,14 @@ def _(v):
     v.ground("frame", sorted(set(o.st.writes)) == sorted(("self", a) for a in ("G", "python_unit_l", "python_unit_m", "python_unit_t")),
              "writes: %s; external attribute stores ignored: %s" % (sorted(set(o.st.writes)), o.st.ext_stores))
     cover(v, it, o.st)
+    # the `units` property read back: names of the units just set, under the right headings
+    g = it.call("get:units", [this], st=o.st, cls="Simulation")
+    ok = len(g) == 1 and g[0].kind == "return" and isinstance(g[0].value, pysym.DictV) and sorted(g[0].value.keys) == ["length", "mass", "time"]
+    v.ground("getter.shape", ok, str([(x.kind, x.value) for x in g])[:200])
+    if ok:
+        d = g[0].value
+        prove(v, it, g[0].st, "getter.roundtrip", z3.And(d.get("length") == l, d.get("time") == t, d.get("mass") == m))
+        v.ground("getter.no_write", g[0].st.writes == o.st.writes, "getter writes nothing")
 
 
 @P.task("units.Simulation.units.setter", fn="%s:Simulation.units" % SIM_PY)
